@@ -53,7 +53,7 @@ func (c *MJSectionComponent) Render(w io.StringWriter) error {
 	padding := c.GetAttributeWithDefault(c, "padding")
 	direction := c.GetAttributeWithDefault(c, "direction")
 	textAlign := c.GetAttributeWithDefault(c, "text-align")
-	fullWidth := c.GetAttributeWithDefault(c, "full-width")
+	fullWidth := c.fullWidthFlag()
 	borderRadius := c.GetAttributeWithDefault(c, "border-radius")
 	align := c.GetAttributeWithDefault(c, "align")
 	border := c.GetAttributeFast(c, constants.MJMLBorder)
@@ -898,6 +898,17 @@ func (c *MJSectionComponent) Render(w io.StringWriter) error {
 	}
 
 	return nil
+}
+
+// fullWidthFlag returns "full-width" when the resolved full-width attribute switches the
+// full-width layout on, and "" for every other value ("false" is the other legal one).
+// The comparison is made on the resolved value, so an element's own full-width="false"
+// still overrides a full-width coming from mj-class or mj-attributes.
+func (c *MJSectionComponent) fullWidthFlag() string {
+	if c.GetAttributeWithDefault(c, "full-width") == "full-width" {
+		return "full-width"
+	}
+	return ""
 }
 
 func (c *MJSectionComponent) GetDefaultAttribute(name string) string {
